@@ -142,12 +142,9 @@ class SDPA(pattern.RewriteRuleClassBase):
             if len(mask_dims) > 4:
                 raise MatchFailureError("The mask has rank > 4.", mask)
             for mask_dim, score_dim in zip(reversed(mask_dims), reversed(score_dims)):
-                if (
-                    isinstance(mask_dim, int)
-                    and isinstance(score_dim, int)
-                    and mask_dim != 1
-                    and mask_dim != score_dim
-                ):
+                # A static mask dimension other than 1 must be the score dimension: against a symbolic
+                # score dimension it cannot be known to be (a mask [2, ...] enlarges a batch that is 1).
+                if isinstance(mask_dim, int) and mask_dim != 1 and mask_dim != score_dim:
                     raise MatchFailureError("The mask does not broadcast into the score shape.", mask)
 
         # Every lowering of the intermediate SDPA op (MHA, GQA, Attention) needs a static number of heads.
